@@ -437,8 +437,8 @@ def run(ctx):
     ctx.trust("gcd / lcm / modulo / floor/ / truncate/ / exact-integer-sqrt wrappers (Scheme code in init-7.scm, eval.c), number->string for "
               "radix != 10 (Scheme loop over quotient/remainder), printing of fixnums and exact<->inexact conversion are tied to the Z/Q spec by "
               "the outer correspondence only (no model); string->number is compared for radix <= 16 only (R7RS: 2, 8, 10, 16)")
-    ctx.assume("termination of the Newton loop of sqrt and of the ratio wrappers, and any bound on the number of rounds of quot_rem / "
-               "Karatsuba, are not proved (existence of a fuel is, for quot_rem, Karatsuba, expt, Euclid, ratio_normalize)")
+    ctx.assume("termination of the ratio add/sub/mul/div/compare/rounding wrappers and any bound on the number of rounds of quot_rem / "
+               "Karatsuba / Newton are not proved (existence of a fuel is, for quot_rem, Karatsuba, expt, Euclid, ratio_normalize, sqrt)")
     ctx.note("absence of operand mutation is checked (operand snapshots in the inner harness, operands re-compared in every outer case), not proved")
 
 DIG = "0123456789abcdefghijklmnopqrstuvwxyz"
